@@ -1018,7 +1018,7 @@ CHECKS = {
                           'FastPasta.sortStable_sorted', 'FastPasta.sortStable_filter', 'FastPasta.interleave_filter', 'FastPasta.interleave_sum', 'FastPasta.interleave_any']),
     'C15': dict(modules=['FastPasta.Props.C15'], run=run_c15, needs_harness=False, corr='statscmp_model',
                 theorems=['FastPasta.C15.validate_complete', 'FastPasta.C15.validate_refl', 'FastPasta.C15.drift_detected', 'FastPasta.C15.drift_sets_exit',
-                          'FastPasta.C15.mismCounters_nil']),
+                          'FastPasta.C15.mismCounters_nil', 'FastPasta.C15.compared_fields_src']),
     'C16': dict(modules=['FastPasta.Props.C16'], run=run_c16, needs_harness=False, corr='display_model',
                 theorems=['FastPasta.C16.exit_contract', 'FastPasta.C16.exit_in_range', 'FastPasta.C16.run_exit', 'FastPasta.C16.code_filter_exact',
                           'FastPasta.C16.no_bracket_never_matches', 'FastPasta.C16.total_eq_shown', 'FastPasta.C16.mute_only_display',
